@@ -8,6 +8,7 @@ import (
 	"fmt"
 	"net/http"
 	"net/url"
+	"strconv"
 	"strings"
 	"sync"
 	"time"
@@ -383,7 +384,8 @@ func (p *ClientProcessor) OnProto(parser *Parser, proto string) error {
 //go:norace
 func (p *ClientProcessor) OnStatus(parser *Parser, code int, status string) {
 	p.response.StatusCode = code
-	p.response.Status = status
+	// as net/http: "200 OK".
+	p.response.Status = strconv.Itoa(code) + " " + status
 }
 
 // OnHeader .
